@@ -1696,6 +1696,35 @@ DIRECTED = {
         'l@EXT@': '#ifdef __cplusplus\nextern "C"\n#endif\nint lf(void) { return PRE; }\n',
         'm@EXT@': '#ifdef __cplusplus\nextern "C"\n#endif\nint lf(void);\n'
                   'int main(void) { return lf() - PRE; }\n'},
+    # a library named in the link_options of a STATIC library is needed by that archive: on the
+    # consumer's link line it has its effect only AFTER the archive (the system linker resolves
+    # left to right, and drops an as-yet-unneeded shared library under --as-needed)
+    'lib-option-of-static-library': {
+        'build.bfg': "num = static_library('num', files=['l@EXT@'], link_options=[opts.lib('m')])\n"
+                     "exe = executable('prog', files=['m@EXT@'], libs=[num])\n",
+        'l@EXT@': '#include <math.h>\n#ifdef __cplusplus\nextern "C"\n#endif\n'
+                  'double lf(double x) { return j0(x); }\n',
+        'm@EXT@': '#ifdef __cplusplus\nextern "C"\n#endif\ndouble lf(double);\n'
+                  'int main(void) { volatile double x = 0.0; return lf(x) == 1.0 ? 0 : 1; }\n'},
+    'lib-literal-option-of-static-library-static-link': {
+        'build.bfg': "num = static_library('num', files=['l@EXT@'], "
+                     "link_options=[opts.lib_literal('-lm')])\n"
+                     "exe = executable('prog', files=['m@EXT@'], libs=[num], "
+                     "link_options=[opts.static()])\n",
+        'l@EXT@': '#include <math.h>\n#ifdef __cplusplus\nextern "C"\n#endif\n'
+                  'double lf(double x) { return j0(x); }\n',
+        'm@EXT@': '#ifdef __cplusplus\nextern "C"\n#endif\ndouble lf(double);\n'
+                  'int main(void) { volatile double x = 0.0; return lf(x) == 1.0 ? 0 : 1; }\n'},
+    'lib-option-of-inner-static-library': {
+        'build.bfg': "num = static_library('num', files=['l@EXT@'], link_options=[opts.lib('m')])\n"
+                     "mid = static_library('mid', files=['k@EXT@'], libs=[num])\n"
+                     "exe = executable('prog', files=['m@EXT@'], libs=[mid])\n",
+        'l@EXT@': '#include <math.h>\n#ifdef __cplusplus\nextern "C"\n#endif\n'
+                  'double nf(double x) { return j0(x); }\n',
+        'k@EXT@': '#ifdef __cplusplus\nextern "C" {\n#endif\ndouble nf(double);\n'
+                  'double lf(double x) { return nf(x); }\n#ifdef __cplusplus\n}\n#endif\n',
+        'm@EXT@': '#ifdef __cplusplus\nextern "C"\n#endif\ndouble lf(double);\n'
+                  'int main(void) { volatile double x = 0.0; return lf(x) == 1.0 ? 0 : 1; }\n'},
     # the same object for two executables with the same flags (control: must work)
     'pch-object-shared-by-two-exes': {
         'build.bfg': "pch = precompiled_header(file='pre@HEXT@')\n"
@@ -1735,8 +1764,10 @@ def run_directed(case, res):
         res.ev('compiler:' + compiler)
         res.key([compiler, lang, 'directed', name], True)
         res.classes.add('directed:' + name)
-        w = {'compiler': compiler, 'lang': lang, 'variant': name, 'opt': 'pch', 'val': name,
-             'place': 'two-targets', 'bfg_text': files['build.bfg']}
+        w = {'compiler': compiler, 'lang': lang, 'variant': name,
+             'opt': 'pch' if name.startswith('pch') else 'lib', 'val': name,
+             'place': 'two-targets' if name.startswith('pch') else 'static-library-link-options',
+             'bfg_text': files['build.bfg']}
         rc, cout = proj.configure(src, bld, 'make', env=env)
         res.ev('build:configure')
         if rc != 0:
